@@ -105,11 +105,14 @@ class Cache:
             if node.uuid_map is not None:
                 res.name_to_uuid = {name: node.uuid_map[uid] for name, uid in self.name_to_uuid.items()}
                 res.uuid_to_name = {uid: name for name, uid in res.name_to_uuid.items()}
+                # `transfer_col_references` only maps the selected columns, hidden ones
+                # go out of scope
                 res.cols = {
                     node.uuid_map[uid]: Col(col.name, node, node.uuid_map[uid], col._dtype, col._ftype)
                     for uid, col in self.cols.items()
+                    if uid in node.uuid_map
                 }
-                res.partition_by = [node.uuid_map[uid] for uid in self.partition_by]
+                res.partition_by = [node.uuid_map[uid] for uid in self.partition_by if uid in node.uuid_map]
                 res.derived_from = set()
 
         elif isinstance(node, verbs.Select):
